@@ -454,3 +454,27 @@ class Report:
         json.dump(ev, open(os.path.join(VERIF, "evidence", f"{self.prop}.json"), "w"), indent=1)
         sys.stdout.flush()
         return 1 if seen else 0
+
+
+# ------------------------------------------------------------------------------------------------
+# anti-vacuity: corrupt one recorded field and require TLC to flag exactly that event
+
+def anti_vacuity(rep, module, events, mutations, boundary=None, name="selftest"):
+    """mutations: list of (index, mutate(event) -> corrupted copy, owner).  Each corruption is applied to its own copy of
+    `events`; TLC must print a verdict for that event owned by `owner`.  A corruption that goes unnoticed means the
+    trace specification does not constrain that field: a tool error (the machinery cannot be believed)."""
+    import copy
+    flagged = 0
+    detail = []
+    for k, (idx, mut, owner) in enumerate(mutations):
+        evs = list(events)
+        evs[idx] = mut(copy.deepcopy(events[idx]))
+        verdicts, _, _ = validate_events(module, evs, f"{name}-{k}", shards=1, boundary=boundary)
+        hit = [v for v in verdicts if v["index"] == idx and any(o == owner for o, _ in v["pairs"])]
+        detail.append({"event": idx, "owner": owner, "flagged": bool(hit), "fields": sorted({f for v in hit for _, f in v["pairs"]})})
+        if hit:
+            flagged += 1
+    rep.extra.setdefault("anti_vacuity", []).extend(detail)
+    if flagged != len(mutations):
+        raise ToolError(f"anti-vacuity: {len(mutations) - flagged} corrupted recording(s) were not flagged by {module}: {detail}")
+    return flagged
